@@ -94,14 +94,15 @@ to match, the one taking every run maximally. `matchAt t` is that unique attempt
 replacement text and the remaining text. `regex.sub` scans left to right, replaces the leftmost match and resumes
 after it (the pattern has no empty match): `compact`.
 
-`isWs` is `\s` of a `str` pattern (Unicode White_Space plus U+001C–U+001F, i.e. `str.isspace`); `isDigit` is `\d`
+`isWs` is `\s` of the `regex` module for a `str` pattern (the Unicode White_Space property: U+001C–U+001F are NOT in
+it, unlike `str.isspace` — found by the `compact-texts` stream); `isDigit` is `\d`
 restricted to ASCII — the texts `get_json` applies it to are pure ASCII (`ensure_ascii=True`,
 `Proofs/JsonText.lean: dumps_ascii`), the correspondence stream of the harness keeps to texts whose only decimal
 digits are ASCII.
 -/
 
 def wsList : List Nat :=
-  [9, 10, 11, 12, 13, 28, 29, 30, 31, 32, 133, 160, 5760, 8192, 8193, 8194, 8195, 8196, 8197, 8198, 8199, 8200,
+  [9, 10, 11, 12, 13, 32, 133, 160, 5760, 8192, 8193, 8194, 8195, 8196, 8197, 8198, 8199, 8200,
    8201, 8202, 8232, 8233, 8239, 8287, 12288]
 
 def isWs (c : Nat) : Bool := wsList.contains c
